@@ -296,6 +296,7 @@ pub fn exec(a: &Args) -> i32 {
     // set when a `crashtear` found no record to tear (the commit log had been flushed already): the model assumed
     // the last transaction lost, so the rest of the case is not comparable
     let mut untorn = false;
+    let mut last_straddled = false;
     for line in text.lines() {
         let w: Vec<&str> = line.split_whitespace().collect();
         let res = std::panic::catch_unwind(std::panic::AssertUnwindSafe(|| -> String {
@@ -373,10 +374,12 @@ pub fn exec(a: &Args) -> i32 {
                     return match TreeBuilder::with_options(mk_opts(dir.path(), o)).build() {
                         Ok(nt) => {
                             tree = Some(nt);
-                            if !torn {
+                            // a batch that was logged again after a rotation (fix 3449869) has two records: tearing the
+                            // tail of the newest segment removes the copy only, the transaction is still there
+                            if !torn || last_straddled {
                                 untorn = true;
                             }
-                            if torn { "ok".into() } else { "ok H=nothing-to-tear".into() }
+                            if torn && !last_straddled { "ok".into() } else { "ok H=nothing-to-tear".into() }
                         }
                         Err(e) => format!("err:open:{}", err_name(&e)),
                     };
@@ -408,8 +411,11 @@ pub fn exec(a: &Args) -> i32 {
             // S=straddle marks the transaction during which the memtable rotated: its first record is in the old
             // segment (the batch is logged again in the new one: fix 3449869); images after it are judged like any other
             let mut s_mark = "";
-            if base == "txn" && ROTATIONS.load(std::sync::atomic::Ordering::SeqCst) != rot_before {
-                s_mark = " S=straddle";
+            if base == "txn" {
+                last_straddled = ROTATIONS.load(std::sync::atomic::Ordering::SeqCst) != rot_before;
+                if last_straddled {
+                    s_mark = " S=straddle";
+                }
             }
             let h = if untorn { " H=nothing-to-tear" } else if straddled { " H=straddle" } else { "" };
             if at.is_none() && base != "crash" {
